@@ -316,7 +316,11 @@ impl<'a> Walk<'a> {
 
         // Skip already visited paths. We're checking only when follow_links is true,
         // because inserting into a shared hash map is costly.
-        if self.follow_links && !self.mark_visited(&entry, level, state) {
+        // A directory is marked in `visit_dir`, only when it is really going to be read.
+        if self.follow_links
+            && entry.tpe != EntryType::Dir
+            && !self.mark_visited(&entry.path, entry.tpe, level, state)
+        {
             return;
         }
 
@@ -330,15 +334,22 @@ impl<'a> Walk<'a> {
 
     /// Records a visit of the entry. Returns false if the entry needs no visit, because
     /// it has been visited before. A directory or a link reached again at a smaller nesting level
-    /// than before is visited again, because more of its subtree is within the depth limit now.
-    fn mark_visited<F>(&self, entry: &Entry, level: usize, state: &WalkState<F>) -> bool {
+    /// than before is visited again: more of its subtree is within the depth limit now, and a path
+    /// given by the user as an input path (level 0) is visited regardless of which other
+    /// input path led to it first.
+    fn mark_visited<F>(
+        &self,
+        path: &Path,
+        tpe: EntryType,
+        level: usize,
+        state: &WalkState<F>,
+    ) -> bool {
         let mut visit = false;
         state
             .visited
-            .entry(entry.path.hash128())
+            .entry(path.hash128())
             .and_modify(|visited_level| {
-                let depth_limited = self.depth != usize::MAX;
-                if depth_limited && entry.tpe != EntryType::File && level < *visited_level {
+                if tpe != EntryType::File && level < *visited_level {
                     *visited_level = level;
                     visit = true;
                 }
@@ -408,6 +419,11 @@ impl<'a> Walk<'a> {
             return;
         }
         if self.one_fs && !self.same_fs(&path, dev) {
+            return;
+        }
+        // Mark the directory as visited only now, when nothing can stop us from reading it,
+        // otherwise it would not be read when reached another way that allows for it.
+        if self.follow_links && !self.mark_visited(&path, EntryType::Dir, level, state) {
             return;
         }
 
